@@ -842,6 +842,7 @@ func (r *relayCan) UnblindProposal(ctx context.Context, opts *builderapi.Unblind
 	}
 	if out.Kind == "hang" {
 		<-ctx.Done()
+		time.Sleep(time.Duration(out.Lat) * time.Millisecond)
 		return nil, ctx.Err()
 	}
 	time.Sleep(time.Duration(out.Lat) * time.Millisecond)
